@@ -370,7 +370,9 @@ fn gen_req() -> Req {
         }
         4 => {
             let (body, tag, exp) = gen_json_body();
-            let (ct, cttag): (Option<&str>, &str) = match t::weighted(&[6, 2, 1, 1, 1]) {
+            let (ct, cttag): (Option<&str>, &str) = match t::weighted(&[6, 2, 1, 1, 1, 1]) {
+                // a proper prefix of the type (or nothing at all) is another type
+                5 => (Some(t::pick(&["application/", "application/j", "application/jso", "a", ""])), "mismatch"),
                 0 => (Some("application/json"), "match"),
                 1 => (Some("application/json; charset=utf-8"), "match"),
                 2 => (Some("text/plain"), "mismatch"),
@@ -401,7 +403,7 @@ fn gen_req() -> Req {
                 }
                 0 => mk("POST", "/form".into(), Some("application/x-www-form-urlencoded"), Some(format!("a={a}%21&n={n}").into_bytes()), "valid", "form", "form-body", Some(json!({"f": F { a: format!("{a}!"), n }}))),
                 1 => mk("POST", "/form".into(), Some("application/x-www-form-urlencoded"), Some(format!("a={a}&n=x{n}").into_bytes()), "invalid", "form", "form-bad-int", None),
-                2 => mk("POST", "/form".into(), Some("application/json"), Some(format!("a={a}&n={n}").into_bytes()), "invalid", "form", "content-type-mismatch", None),
+                2 => mk("POST", "/form".into(), Some(t::pick(&["application/json", "application/x-www-form", "application/x-www-form-urlencode", "application/"])), Some(format!("a={a}&n={n}").into_bytes()), "invalid", "form", "content-type-mismatch", None),
                 _ => mk("POST", "/form".into(), Some("application/x-www-form-urlencoded"), None, "invalid", "form", "missing-payload", None),
             }
         }
@@ -416,7 +418,7 @@ fn gen_req() -> Req {
                     }
                 }
                 1 => mk("POST", "/text".into(), Some("text/plain"), Some(vec![b'a', 0xff, b'b']), "invalid", "text", "text-non-utf8", None),
-                _ => mk("POST", "/text".into(), Some("application/octet-stream"), Some(b"abc".to_vec()), "invalid", "text", "content-type-mismatch", None),
+                _ => mk("POST", "/text".into(), Some(t::pick(&["application/octet-stream", "text", "text/", "text/plai", "t"])), Some(b"abc".to_vec()), "invalid", "text", "content-type-mismatch", None),
             }
         }
         7 => {
@@ -426,7 +428,7 @@ fn gen_req() -> Req {
             match t::weighted(&[4, 1, 1]) {
                 0 => mk("POST", "/multi".into(), Some(&format!("multipart/form-data; boundary={boundary}")), Some(multipart_body(boundary, &[("a", &a), ("b", b)])), "valid", "multi", "multipart-body", Some(json!({"m": MP { a: a.clone(), b: b.to_string() }}))),
                 1 => mk("POST", "/multi".into(), Some(&format!("multipart/form-data; boundary={boundary}")), Some(multipart_body(boundary, &[("a", &a)])), "invalid", "multi", "multipart-missing-field", None),
-                _ => mk("POST", "/multi".into(), Some("application/json"), Some(multipart_body(boundary, &[("a", &a), ("b", b)])), "invalid", "multi", "content-type-mismatch", None),
+                _ => mk("POST", "/multi".into(), Some(t::pick(&["application/json", "multipart/", "multipart/form-dat", "multipart"])), Some(multipart_body(boundary, &[("a", &a), ("b", b)])), "invalid", "multi", "content-type-mismatch", None),
             }
         }
         8 => {
